@@ -14,6 +14,7 @@ import (
 	"fmt"
 	"hash/fnv"
 	"os"
+	"runtime/pprof"
 	"sort"
 	"strconv"
 	"sync"
@@ -649,6 +650,9 @@ type stats struct {
 	ti         truncInfo
 	classes    map[string]*class
 	br         *bufio.Reader // reusable buffered reader of this worker
+	// failures seen on a reader reused through SetReader are re-run on a fresh
+	// reader; reusedOnly counts those that a fresh reader did not reproduce.
+	reusedRetry, reusedOnly int64
 }
 
 func newStats() *stats {
@@ -720,6 +724,7 @@ func runJob(j job, s *stats) {
 		return
 	}
 
+	var rds [nReaderKinds]*kgo.RecordReader
 	for si, recs := range j.streams(l) {
 		br := s.br
 		if si == 0 {
@@ -738,7 +743,25 @@ func runJob(j job, s *stats) {
 		for _, rk := range j.rks {
 			s.execs++
 			s.byRK[rk]++
-			if fl := guard(func() *failure { return readBack(l, stream, recs, rk, br) }); fl != nil {
+			reused := rds[rk] != nil && br != nil
+			var fl *failure
+			if reused {
+				fl = guard(func() (f *failure) { f, rds[rk] = readBack(l, stream, recs, rk, br, rds[rk]); return })
+				if fl != nil { // only a failure of a fresh reader counts
+					s.reusedRetry++
+					fl = guard(func() (f *failure) { f, _ = readBack(l, stream, recs, rk, br, nil); return })
+					if fl == nil {
+						s.reusedOnly++
+					}
+					rds[rk] = nil
+				}
+			} else {
+				fl = guard(func() (f *failure) { f, rds[rk] = readBack(l, stream, recs, rk, br, nil); return })
+				if fl != nil {
+					rds[rk] = nil
+				}
+			}
+			if fl != nil {
 				s.record(l, recs, rk, stream, fl)
 				ok = false
 			}
@@ -785,7 +808,8 @@ func replay(path string) {
 			return &failure{kind: "formatter-rejects-layout", err: err.Error()}
 		}
 		stream, bnd = write(l, f, recs)
-		return readBack(l, stream, recs, a.ReaderKind, nil)
+		f2, _ := readBack(l, stream, recs, a.ReaderKind, nil, nil)
+		return f2
 	})
 	for i := range recs {
 		fmt.Printf("record %d: %s\n", i, a.Records[i].Text)
@@ -810,6 +834,13 @@ func replay(path string) {
 func main() {
 	if len(os.Args) == 3 && os.Args[1] == "--replay" {
 		replay(os.Args[2])
+	}
+	if pf := os.Getenv("C20_CPUPROFILE"); pf != "" {
+		f, err := os.Create(pf)
+		if err == nil {
+			pprof.StartCPUProfile(f)
+			defer pprof.StopCPUProfile()
+		}
 	}
 	r := ev.New("C20", "exploration")
 
@@ -878,6 +909,8 @@ func main() {
 			tot.byRK[i] += s.byRK[i]
 		}
 		tot.records += s.records
+		tot.reusedRetry += s.reusedRetry
+		tot.reusedOnly += s.reusedOnly
 		tot.execs += s.execs
 		tot.ti.cuts += s.ti.cuts
 		tot.ti.unexpectedEOF += s.ti.unexpectedEOF
@@ -931,6 +964,7 @@ func main() {
 	r.Set("reader_runs_by_kind", map[string]int64{readerKindNames[0]: tot.byRK[0], readerKindNames[1]: tot.byRK[1], readerKindNames[2]: tot.byRK[2]})
 	r.Set("truncation_cuts", map[string]int64{"cuts": tot.ti.cuts, "unexpected_eof": tot.ti.unexpectedEOF, "other_error": tot.ti.otherErr,
 		"record_returned_without_error": tot.ti.bogusRecord, "complete_prefix_not_read_back": tot.ti.prefixAnomaly})
+	r.Set("reader_reuse", map[string]int64{"failures_rerun_on_fresh_reader": tot.reusedRetry, "not_reproduced_by_fresh_reader": tot.reusedOnly})
 	r.Set("number_spellings", len(allNF))
 	r.Set("text_encodings", func() []string {
 		var o []string
@@ -973,6 +1007,7 @@ func main() {
 	for _, s := range sampleCases(&b) {
 		r.Sample(s)
 	}
+	pprof.StopCPUProfile()
 	r.Finish()
 }
 
